@@ -630,6 +630,12 @@ func (fv *FV) Verify() {
 						break
 					}
 				}
+				if proto.Sort == "" {
+					// callee outside the repository (or an interface method): take the result type from a call site
+					if t := calleeResultType(fv.fn, g.Callee, ri); t != nil {
+						proto = Term{Sort: fv.sortOf(t), T: t}
+					}
+				}
 			} else {
 				var gerrs []string
 				proto = fv.entryEnv(st, &gerrs).Eval(g.Clause.E)
@@ -740,4 +746,34 @@ func (fv *FV) addObl(st *State, o *Obligation) {
 	o.id = len(fv.obls)
 	fv.obls = append(fv.obls, o)
 	st.emit(fmt.Sprintf(";;OBL %d", o.id))
+}
+
+// calleeResultType: result type ri of the first call in this function whose callee is named name.
+func calleeResultType(fn *ssa.Function, name string, ri int) types.Type {
+	if fn == nil {
+		return nil
+	}
+	for _, b := range fn.Blocks {
+		for _, in := range b.Instrs {
+			ci, ok := in.(ssa.CallInstruction)
+			if !ok {
+				continue
+			}
+			c := ci.Common()
+			n := ""
+			if c.IsInvoke() {
+				n = c.Method.Name()
+			} else if f := c.StaticCallee(); f != nil {
+				n = f.Name()
+			}
+			if n != name {
+				continue
+			}
+			rs := c.Signature().Results()
+			if ri < rs.Len() {
+				return rs.At(ri).Type()
+			}
+		}
+	}
+	return nil
 }
